@@ -755,9 +755,10 @@ func (dht *FullRT) SearchValue(ctx context.Context, key string, opts ...routing.
 			return
 		}
 
-		ctx, cancel := context.WithTimeout(ctx, time.Second*5)
-		dht.updatePeerValues(ctx, key, best, updatePeers)
-		cancel()
+		// updatePeerValues only starts the puts and returns: they must not run
+		// on a context that ends when this goroutine does. Each put has its own
+		// timeout and the client's context bounds them all, as in IpfsDHT.
+		dht.updatePeerValues(dht.ctx, key, best, updatePeers)
 	}()
 
 	return out, nil
